@@ -30,7 +30,8 @@ REQUIRED = [
     "KV.C16.extSort_nodup", "KV.C16.extSort_unique", "KV.C16.extSort_eq_spec",
     "KV.C16.extSort_canon", "KV.C16.extSort_combine_unique", "KV.C16.extSort_combine_eq_spec",
     "KV.C16.codeSort_refines", "KV.C16.codeSort_sorted_perm", "KV.C16.sizedSort_perm_sorted",
-    "KV.C16.counting_suffix", "KV.C16.counting_prefix", "KV.C16.codeSort_ok", "KV.C16.codeSort_correct",
+    "KV.C16.counting_suffix", "KV.C16.counting_prefix", "KV.C16.counting_context", "KV.C16.codeSort_ok",
+    "KV.C16.codeSort_correct", "KV.C16.bufferedEntry_refines",
 ]
 
 BOOST = ["-Wl,--no-as-needed", "-lboost_thread", "-lboost_system"]
@@ -189,7 +190,7 @@ def gen_case(rng, tier, idx):
         tot = rng.randrange(0, 4 * bufr)                  # BadSortConfig
     if r > 0.98:
         buf = rng.randrange(0, rs)                        # buffer rounds to 0 => BadSortConfig
-    mode = "blocking" if rng.random() < 0.2 else "output"
+    mode = rng.choice(["blocking", "blocking", "steal"]) if rng.random() < 0.3 else "output"
     lz = rng.random()
     if lz < 0.3:
         lazy = "0"
@@ -201,6 +202,8 @@ def gen_case(rng, tier, idx):
         lazy = str(bufr * rng.choice([1, 2, 2, 3, 5]) + rng.choice([0, rng.randrange(0, bufr + 1)]))
     else:
         lazy = str(rng.choice([n * rs, n * rs + 1, max(0, n * rs - 1), n * rs // 2, 10 * n * rs + 5]))
+    if mode == "steal":
+        lazy = "0"
     if tot >= (1 << 24) and (mode == "blocking" or lazy == "default"):
         mode, lazy = "output", "0"                        # DefaultLazy uses float: keep exact
     detail = 1 if n * max(nblocks, 1) <= 3000000 else 0
@@ -325,7 +328,7 @@ def evaluate(ctx, c, line, hM, hO, dM):
         fields.append("seq")
     if c["detail"]:
         fields.append("passes")
-        if c["mode"] == "output":
+        if c["mode"] in ("output", "steal"):
             fields += ["mret", "lazy"]
     for f in fields:
         if h.get(f) != d.get(f):
@@ -484,6 +487,43 @@ def offsets_stream(ctx, hexe, dexe, n_cases, wdir):
                           {"stream": "offsets", "op": op, "impl": a, "model": b}, no_input=True)
             found = True
     return found
+
+
+def replay(ctx, path):
+    """python3 check.py C16 --replay replays/C16/<hash>.json : re-run one recorded case on the current tree."""
+    import json
+    obj = json.load(open(path))
+    ok, hexe, lg = repo.harness("c16.cc", libs=True, config="asan", extra=BOOST)
+    okl, out = lean.lake_build(["drv_C16"])
+    if not ok or not okl:
+        print("cannot build harness/driver: " + (lg if not ok else out)[-1500:])
+        return 2
+    dexe = lean.driver_path("drv_C16")
+    wdir = fresh_scratch("c16_replay_%d" % os.getpid())
+    try:
+        if obj.get("stream") == "offsets":
+            (rc1, o1, e1), (rc2, o2, e2) = stream.both(hexe, dexe, [obj["op"]], env={"C16_TMPDIR": wdir})
+            print("impl :", rc1, o1, e1[-500:])
+            print("model:", rc2, o2)
+            return 0 if (rc1 == 0 and o1 == o2) else 1
+        c = obj["case"]
+        cap = max(1, c["cmem"] // (c["cbc"] * c["rs"]))
+        if c["blocks"] == "F":
+            c["counts"] = [cap] * (c["n"] // cap) + ([c["n"] % cap] if c["n"] % cap else [])
+        else:
+            c["counts"] = [int(x) for x in c["blocks"].split(",") if x]
+        lines, (rc1, o1, e1), (rc2, o2, e2) = run_batch(hexe, dexe, [c], wdir, "replay")
+        print("op   :", lines[0])
+        print("impl :", rc1, o1, e1[-1500:])
+        print("model:", rc2, o2)
+        if rc1 != 0 or rc2 != 0 or len(o1) < 2 or not o2:
+            return 1
+        probs = evaluate(ctx, c, lines[0], o1[0], o1[1], o2[0])
+        for k, w in probs:
+            print("problem (%s): %s" % (k, w))
+        return 1 if probs else 0
+    finally:
+        shutil.rmtree(wdir, ignore_errors=True)
 
 
 def run(ctx):
